@@ -5,7 +5,9 @@ sys.path.insert(0, os.path.dirname(os.path.abspath(__file__)))
 import vlib, gram, front
 
 TRICKY_NAMES = ['left_paren', 'right_paren', 'token_kind', 'type1', 'start_sym', 'prec2', 'union_a', 'nonassoc_x', 'precedence_lvl', 'tokens', 'lefty', 'typeid', 'startx', 'accept', 'end_', 'error', 'NUM', 'ID_2', '_u', 'x9']
-ACTIONS = ['{ }', '{ x := 1; _ = x }', '{ if true { } else { } }', '{ /* c */ }', '{ // line\n }', '{ s := "str"; _ = s }', '{ a := []int{1, 2}; _ = a }', "{ r := 'x'; _ = r }", '{\n\t_ = 0\n}']
+ACTIONS = ['{ }', '{ x := 1; _ = x }', '{ if true { } else { } }', '{ /* c */ }', '{ // line\n }', '{ s := "str"; _ = s }', '{ a := []int{1, 2}; _ = a }', "{ r := 'x'; _ = r }", '{\n\t_ = 0\n}',
+           # quotes that do not pair up inside an action (an apostrophe in a comment, a lone backquote): only braces delimit an action
+           "{ // don't stop here\n }", "{ /* it's fine */ _ = 1 }", '{ /* say "hi */ }', '{ // a ` backquote\n }', "{ _ = 2 // can't\n }"]
 
 
 def rename_tricky(g, rnd):
